@@ -65,16 +65,17 @@ class DumpError(Exception):
     pass
 
 
-def dump(short, overflow_checks=True, features=None, log=None):
-    """returns (path_to_mir_text, info dict)"""
+def dump(short, overflow_checks=True, features=None, log=None, printer='mir'):
+    """returns (path_to_mir_text, info dict); printer: 'mir' (promoted constants, lossy closure aggregates) or 'stable-mir' (complete aggregates)"""
     os.makedirs(os.path.join(CACHE, 'mir'), exist_ok=True)
     sh = source_hash(short)
-    tag = '%s-%s-%s' % (short, 'oc' if overflow_checks else 'nooc', sh)
+    prof = ('oc' if overflow_checks else 'nooc') + ('' if printer == 'mir' else '-smir')
+    tag = '%s-%s-%s' % (short, prof, sh)
     out = os.path.join(CACHE, 'mir', tag + '.mir')
     info = {'crate': CRATES[short], 'source_hash': sh, 'overflow_checks': overflow_checks, 'cached': True, 'dump_s': 0.0}
     if os.path.exists(out) and os.path.getsize(out) > 0:
         return out, info
-    lock = open(os.path.join(CACHE, 'mir', 'lock-%s-%s' % (short, 'oc' if overflow_checks else 'nooc')), 'w')
+    lock = open(os.path.join(CACHE, 'mir', 'lock-%s-%s' % (short, prof)), 'w')
     fcntl.flock(lock, fcntl.LOCK_EX)
     try:
         if os.path.exists(out) and os.path.getsize(out) > 0:
@@ -89,7 +90,7 @@ def dump(short, overflow_checks=True, features=None, log=None):
         if features is not None:
             cmd += ['--no-default-features'] + (['--features', features] if features else [])
         # the nonce cfg makes cargo re-run rustc although the sources' mtimes did not change
-        cmd += ['--', '-Zunpretty=mir', '-C', 'debug-assertions=off', '-C', 'overflow-checks=%s' % ('on' if overflow_checks else 'off'),
+        cmd += ['--', '-Zunpretty=' + printer, '-C', 'debug-assertions=off', '-C', 'overflow-checks=%s' % ('on' if overflow_checks else 'off'),
                 '--cfg', 'mirsym_nonce_%s_%d' % (sh, int(time.time() * 1000) % 100000000), '-A', 'unexpected_cfgs']
         p = subprocess.run(cmd, cwd=REPO, env=env, stdout=subprocess.PIPE, stderr=subprocess.PIPE)
         txt = p.stdout.decode('utf-8', 'replace')
@@ -101,7 +102,7 @@ def dump(short, overflow_checks=True, features=None, log=None):
         os.replace(tmp, out)
         # drop older dumps of the same crate/profile
         for fn in os.listdir(os.path.join(CACHE, 'mir')):
-            if fn.startswith('%s-%s-' % (short, 'oc' if overflow_checks else 'nooc')) and fn.endswith('.mir') and fn != os.path.basename(out):
+            if re.match(r'%s-%s-[0-9a-f]+\.mir$' % (re.escape(short), re.escape(prof)), fn) and fn != os.path.basename(out):
                 try: os.remove(os.path.join(CACHE, 'mir', fn))
                 except OSError: pass
         info['cached'] = False; info['dump_s'] = round(time.time() - t0, 2)
@@ -110,11 +111,19 @@ def dump(short, overflow_checks=True, features=None, log=None):
         fcntl.flock(lock, fcntl.LOCK_UN); lock.close()
 
 
-def load(short, overflow_checks=True, features=None):
+def load(short, overflow_checks=True, features=None, closures=False):
+    """closures=True additionally loads the stable-mir dump to recover the complete operand lists of closure aggregates"""
     from . import mir
     path, info = dump(short, overflow_checks, features)
     t0 = time.time()
     mod = mir.Module(short, open(path).read(), crate_dir(short))
+    if closures:
+        p2, i2 = dump(short, overflow_checks, features, printer='stable-mir')
+        info['dump_s'] = round(info['dump_s'] + i2['dump_s'], 2)
+        ops = {}
+        for m in re.finditer(r'= \{closure@([^}]*)\}\((.*)\);$', open(p2).read(), re.M):
+            ops[m.group(1)] = [x for x in mir.split_top(m.group(2))]
+        mod.closure_ops = ops
     info['parse_s'] = round(time.time() - t0, 2)
     info['functions'] = len(mod.funcs)
     return mod, info
